@@ -194,3 +194,28 @@ def no_reacquire(ctx):
 def witness_send_sync(ctx):
     from .. import witness
     witness.check(ctx, ['InstanceIsSendSync', 'InstanceStateIsPrivate'])
+
+
+@rule('C19', 'blocking-acquire')
+def blocking_acquire(ctx):
+    """No call fails because another thread holds the lock: every acquisition waits (Mutex::lock), none polls
+    (try_lock) and turns contention into a panic or an error."""
+    F = ctx.F
+    bad = []
+    n = 0
+    for body in F.fns():
+        for c in body.calls(r'^std::sync::(Mutex|RwLock)::<T>::(try_lock|try_read|try_write)$'):
+            bad.append((body, c))
+        n += len(body.calls(LOCK))
+    ctx.check(not bad, '-' if not bad else (bad[0][0].root or bad[0][0].key), 'no try_lock',
+              '%s acquires the RNG with try_lock (line %d): under contention the call fails (and its expect panics) instead of '
+              'waiting — a call no longer returns what it would return alone' % (bad[0][0].key if bad else '', bad[0][1].ln if bad else 0),
+              '%d blocking acquisitions, no polling one' % n, bad[0][1].where() if bad else '')
+
+
+@rule('C19', 'fresh-across-threads', configs=('default',))
+def fresh_across_threads(ctx):
+    """'The freshness guarantees hold across threads': all randomness is drawn from the one locked generator — the RNG
+    reference handed to every consumer is the guard / parameter itself, never a copy of its state (C16.rng-threading)."""
+    from . import c16
+    c16.rng_threading(ctx)
